@@ -1133,7 +1133,7 @@ def symbolize(stderr):
         if k not in _sym_cache:
             nm = nm_lookup(mod, int(off, 16))
             try:
-                r = subprocess.run(['/usr/bin/llvm-symbolizer-14', '--obj=' + mod, '--functions=short', '--no-inlines', '0x' + off],
+                r = subprocess.run([vf.vbuild.symbolizer(), '--obj=' + mod, '--functions=short', '--no-inlines', '0x' + off],
                                    stdout=subprocess.PIPE, stderr=subprocess.DEVNULL, text=True, timeout=60)
                 ls = r.stdout.strip().splitlines()
                 name = ls[0] if ls and ls[0] != '??' else nm
@@ -1346,19 +1346,13 @@ def run(tier):
     env['LD_PRELOAD'] = vbuild.asan_runtime()
     env['ASAN_OPTIONS'] = 'detect_leaks=0:abort_on_error=1:halt_on_error=1:allocator_may_return_null=1:detect_stack_use_after_return=0:handle_segv=1:' \
                           'symbolize=0:fast_unwind_on_malloc=1:malloc_context_size=0:max_redzone=256:quarantine_size_mb=16:print_legend=0:print_summary=0'
-    fd, out = tempfile.mkstemp(prefix='c08', dir=vbuild.BUILD if os.path.isdir(vbuild.BUILD) else None); os.close(fd)
     vbuild.build('asan')                # build before the child starts (build errors surface here)
-    r = subprocess.run([sys.executable, os.path.join(vf.VERIF, 'vcheck'), PROP, '--tier', tier, '--sub', 'all', '--out', out], env=env,
-                       stdout=subprocess.PIPE, stderr=subprocess.STDOUT, text=True)
-    try:
-        d = json.load(open(out))
-    except Exception:
-        chk.violation('harness', {'cfg': CFG, 'kind': 'none'}, 'sub-exploration failed: ' + r.stdout[-1500:])
+    d, err = vf.run_sub(PROP, tier, 'all', env=env, prefix='c08')
+    if d is None:
+        chk.harness_error('sub-exploration failed: ' + err)
         return chk.finish('C08', '')
-    finally:
-        os.unlink(out)
     for h in d['harness']:
-        chk.violation('harness:' + h[:40], {'cfg': CFG, 'kind': 'none'}, 'HARNESS ERROR ' + h)
+        chk.harness_error(h)
     for name, p in d['parts'].items():
         chk.part(name, **p)
         chk.cov['distinct_nontrivial'] += p.get('accepted', 0)
